@@ -132,9 +132,13 @@ let check inp obs =
     let d = ref 0 and mx = ref 0 in
     List.iter (fun t -> if t = "S" then (incr d; if !d > !mx then mx := !d)
                         else if t = "C" || t = "R" then decr d) toks; !mx in
+  let guards = run_guards cfg_fixed ops ts_init in
+  let slug = function FTxLimit -> "tx-limit" | FDirectLimitOrder -> "direct-limit-order" in
+  let finding = if prop then "-" else (match guards with g :: _ -> slug g | [] -> "-") in
   let kinds = List.sort_uniq compare (List.map op_name toks) in
   let tags = String.concat "," (List.map (fun k -> "op-" ^ k) kinds @
-             [Printf.sprintf "depth%d" depth_max]) in
+             [Printf.sprintf "depth%d" depth_max] @
+             List.sort_uniq compare (List.map (fun g -> "guard-" ^ slug g) guards)) in
   let detail =
     if prop && eq then "" else
       Printf.sprintf "%s%s%s%s"
@@ -143,6 +147,6 @@ let check inp obs =
         (if obs = m_pinned then "pinned-model=observed" else "pinned-model-differs")
         (if eq || obs = m_pinned then "" else " MODEL(pinned)=" ^ m_pinned) in
   { prop_ok = prop; model_eq = eq; nontrivial = (depth_max > 0 && nops >= 3);
-    finding = "-"; tags; detail }
+    finding; tags; detail }
 
 let () = run_driver check
